@@ -138,6 +138,31 @@ PROPS = {
                         "validated by the fault-enumeration stream: every operation re-run with the k-th bank call failing, snapshot equality after each rejection"],
     },
 
+    "C02": {
+        "module": "MantraDex.Properties.C02", "ns": "MantraDex.C02",
+        "theorems": ["cp_mint_formula", "cp_mint_le_share", "cp_value_per_lp_mono", "cp_first_mint", "withdraw_bounds", "withdraw_refunds_are_floor",
+                     "withdraw_value_per_lp_mono", "withdraw_redeemable", "lp_only_minted_by_deposit_burned_by_withdraw", "ss_later_mint_shape"],
+        "streams": {"mintmath": (3000, 150000), "pm_hist": (80, 4000)},
+        "what": "constant product: later mint = min over the two assets of floor(deposit*supply/reserve) <= the proportional contribution; x*y/supply^2 "
+                "never decreases through a deposit or a withdrawal; first mint + locked 1000 = floor(sqrt(d0*d1)); a withdrawal pays floor(reserve*burned/"
+                "supply) per asset (<= pro rata, > pro rata - 1) and any LP amount worth >= 1 unit of an asset gets a non-zero refund (after the F-02 fix); "
+                "only provide_liquidity mints and only withdraw_liquidity burns LP; stableswap later mint = floor(supply*(D1adj-D0)/D0) with the code's D",
+        "assumptions": ["stableswap: the link from the code's D to the exact invariant (two units) is C19's accuracy clause: validated by the exact-D "
+                        "monitor monSsLp (value per LP never decreases; first mint = D within 2 units inside the supported range), not proved"],
+    },
+    "C19": {
+        "module": "MantraDex.Properties.C19", "ns": "MantraDex.C19",
+        "theorems": ["newton_ok_is_near_fixpoint", "newton_zero_fuel", "stableswap_y_is_near_fixpoint", "G_strictMono", "G_mono", "dCert_unique",
+                     "dCert_sound", "bisect_flips", "ss_output_le_reserve"],
+        "streams": {"swapmath": (6000, 300000), "mintmath": (3000, 150000)},
+        "what": "the Newton loops return a value only when two successive iterates are within the threshold, else ConvergeError (never a non-converged "
+                "value); the y-solver returns near-fixpoints of its integer step; an accepted stableswap quote never exceeds the ask reserve; the exact "
+                "reference is sound: the invariant polynomial G is strictly increasing, the bisection returns the flip point, the certificate "
+                "G(d)<=0<G(d+1) pins floor(D) uniquely. The accuracy clause (|quote-exact| <= 2+2 units) is NOT proved: it is evaluated per generated case "
+                "against the exact reference (monSsQuote) inside the supported range — and fails rarely by a small factor (known finding F-13)",
+        "assumptions": ["accuracy clause validated by monitors, not proved; F-13 known finding (class: within 16x the bound + 1e-15 of the ask reserve)"],
+    },
+
     "C03": {
         "module": "MantraDex.Properties.C03", "ns": "MantraDex.C03",
         "theorems": ["cp_gross_formula", "cp_swap_k_mono", "performSwap_k_mono", "cp_round_trip_no_profit", "ss_swap_D_witness"],
